@@ -93,6 +93,12 @@ func hasNullMethod(t types.Type) bool {
 		if m := n.Method(i).Name(); m == "isNull" || m == "IsNull" {
 			return true
 		}
+		// under any other name: recognised by its body
+		if curProg != nil && curProg.SSA != nil {
+			if mf := curProg.SSA.FuncValue(n.Method(i)); mf != nil && isNullPredFn(mf) {
+				return true
+			}
+		}
 	}
 	return false
 }
@@ -207,7 +213,7 @@ func runR63(c *Ctx) {
 				atomRef = atom
 				pe.oracle = func(pe *pathExec, cond ssa.Value) (bool, bool) { return pe.evalBool(cond, atom) }
 				pe.inline = func(callee *ssa.Function) bool {
-					if callee.Pkg != fn.Pkg || callee.Name() == "isNull" || callee.Name() == "IsNull" {
+					if callee.Pkg != fn.Pkg || callee.Name() == "isNull" || callee.Name() == "IsNull" || isNullPredFn(callee) {
 						return false
 					}
 					// accessors returning (value, isNull) are interpreted by the oracle
